@@ -229,10 +229,11 @@ func (m matcher) match(element *html.Node) (out []matchResult) {
 type pageIndex struct {
 	Group []parser.Token // TODO: handle groups
 	A, B  int
+	zero  bool // true for an explicit :nth(0n+0), which matches no page
 }
 
 func (p pageIndex) IsNone() bool {
-	return p.A == 0 && p.B == 0 && p.Group == nil
+	return p.A == 0 && p.B == 0 && p.Group == nil && !p.zero
 }
 
 type pageSelector struct {
